@@ -83,6 +83,9 @@ pub fn mk_uuid(n: u64) -> Uuid {
     uuid::Builder::from_random_bytes(bytes).into_uuid()
 }
 
+/// marker value for `off`: write zero coordinates as negative zero
+pub const NEG_ZERO_MARK: f64 = -7.25e-301;
+
 pub fn pow2(s: i32) -> f64 {
     2f64.powi(s)
 }
@@ -99,6 +102,17 @@ pub fn mk_vertex<const D: usize>(
     for i in 0..D {
         c[i] = (m[i] as f64) * pow2(s);
     }
+    // `off` = NEG_ZERO_MARK: every zero coordinate is written as -0.0 (same value, other bit pattern)
+    let off = if off == NEG_ZERO_MARK {
+        for x in c.iter_mut() {
+            if *x == 0.0 {
+                *x = -0.0;
+            }
+        }
+        0.0
+    } else {
+        off
+    };
     if off != 0.0 {
         c[0] += off;
     }
@@ -257,8 +271,8 @@ impl Tracer {
                 dok = false;
             }
             m.push(qi);
-            // -0.0 and 0.0 are the same coordinate value for every purpose of the contract
-            let bits = if x == 0.0 { 0u64 } else { x.to_bits() };
+            // the exact bit pattern, sign of zero included (C13: "coordinate bits")
+            let bits = x.to_bits();
             // splitmix-style avalanche of every coordinate's bit pattern
             let mut z = bits.wrapping_add(0x9E37_79B9_7F4A_7C15).wrapping_add(h.rotate_left(17));
             z = (z ^ (z >> 30)).wrapping_mul(0xBF58_476D_1CE4_E5B9);
